@@ -104,6 +104,7 @@ type tokenSpec struct {
 	Sub     string
 	Jti     string
 	Variant int
+	Nbf     int64 // not-before claim (0 = absent)
 	Groups  int // number of group names in a "groups" claim (large tokens)
 }
 
@@ -147,6 +148,9 @@ func mintID(ts tokenSpec) (tok string, sigOK bool) {
 	}
 	if ts.Nonce != nil {
 		claims["nonce"] = ts.Nonce
+	}
+	if ts.Nbf != 0 {
+		claims["nbf"] = ts.Nbf
 	}
 	if ts.Groups > 0 {
 		gs := make([]string, ts.Groups)
